@@ -311,6 +311,15 @@ def mon_hist(r, pid):
                 q = op["q"]
                 if any((x[0], x[1]) == (q["src"], q["seq"]) for x in pj["c2"]):
                     return "step %d: v2 commitment still present after %s" % (i, k)
+        # C10: a receive that reached the applications (all core checks and the proof passed) and in which a payload
+        # fails must end with the sentinel acknowledgement, not with a rejected message
+        if pid == "C10" and k == "recv2" and s["out"] == "err" and s.get("att"):
+            sc = dict((x[0], x) for x in h["init"]["script"])
+            behs = [sc.get(y[4]) for y in op["q"]["pay"]]
+            if all(bh is not None for bh in behs):
+                kinds = [bh[2] for bh in behs]
+                if "error" in kinds and "async" not in kinds[:kinds.index("error")]:
+                    return "step %d: v2 receive with payload results %s reached the applications (%d callbacks ran) but was rejected instead of writing the single error acknowledgement" % (i, kinds, len(s["att"]))
         # C08: successful sends return consecutive sequences and write exactly one commitment
         if pid == "C08" and s["out"] == "ok" and k in ("send1", "send2") and prev_proj[ci] is not None:
             idk = op["chan"] if k == "send1" else op["src"]
